@@ -65,3 +65,4 @@ func (v *Verifier) lemmaExec(l *Lemma) (fx *fnExec, err error) {
 	}
 	return fx, nil
 }
+
